@@ -83,6 +83,30 @@ def assigned_names(body: List[ast.stmt], continuing_only: bool = False) -> List[
     return out
 
 
+def touched_names(body: List[ast.stmt]) -> List[str]:
+    """Local names whose object may be mutated by the statements: method receivers and call arguments."""
+    out: List[str] = []
+    for st in body:
+        for n in ast.walk(st):
+            if isinstance(n, ast.Call):
+                if isinstance(n.func, ast.Attribute) and isinstance(n.func.value, ast.Name):
+                    if n.func.value.id not in out:
+                        out.append(n.func.value.id)
+                for a in list(n.args) + [k.value for k in n.keywords]:
+                    if isinstance(a, ast.Starred):
+                        a = a.value
+                    if isinstance(a, ast.Name) and a.id not in out:
+                        out.append(a.id)
+            elif isinstance(n, (ast.Subscript, ast.Attribute)) and isinstance(n.ctx, (ast.Store, ast.Del)) \
+                    and isinstance(n.value, ast.Name):
+                if n.value.id not in out:
+                    out.append(n.value.id)
+            elif isinstance(n, ast.AugAssign) and isinstance(n.target, ast.Name):
+                if n.target.id not in out:
+                    out.append(n.target.id)
+    return out
+
+
 def _contains(body: List[ast.stmt], types: Tuple[type, ...], stop_at_loops: bool = False) -> bool:
     for st in body:
         if isinstance(st, (ast.FunctionDef, ast.AsyncFunctionDef, ast.ClassDef)):
@@ -448,6 +472,20 @@ class StmtMixin:
         rec = LoopRecord(len(run.loops), st, it, dict(fr.env), fr.func.qual)  # type: ignore[arg-type]
         rec.carried = list(all_assigned)
         run.loops.append(rec)
+        # containers that the body may mutate in place (x.append(..), f(.., x)) have unknown content from here on;
+        # converted in place because callers may hold the same object
+        for n in touched_names(body):
+            v = fr.env.get(n)
+            if isinstance(v, SList) and v.mode == "concrete":
+                v.__dict__["entry"] = list(v.items)
+                v.__dict__["loop"] = lid
+                v.mode = "carried"
+                v.name = v.name or n
+            elif isinstance(v, SDict) and v.concrete:
+                v.__dict__["entry"] = dict(v.items)
+                v.__dict__["loop"] = lid
+                v.concrete = False
+                v.name = v.name or n
 
         def enter_body(carried: List[str]) -> None:
             for n in carried:
